@@ -22,6 +22,8 @@ pub mod c27_bytecode;
 pub mod c31_reuse;
 pub mod c28_inspectors;
 pub mod c32_blob;
+#[cfg(feature = "optimism")]
+pub mod c33_optimism;
 pub mod c34_access;
 pub mod online;
 pub mod online_props;
@@ -33,6 +35,13 @@ pub fn dispatch(ctx: &Ctx) -> i32 {
         "C11" => c11_memory::run(ctx),
         "C14" => c14_gasformulas::run(ctx),
         "C02" => c02_validation::run(ctx),
+        #[cfg(feature = "optimism")]
+        "C33" => c33_optimism::run(ctx),
+        #[cfg(not(feature = "optimism"))]
+        "C33" => {
+            println!("INCONCLUSIVE property=C33 needs the op lane (vmon built with --features optimism)");
+            2
+        }
         "C34" => c34_access::run(ctx),
         "C03" => c03_arith::run(ctx),
         "C04" => c04_jump::run(ctx),
